@@ -60,6 +60,11 @@ def _tfs_ctor_cases():
                     out.append(Case(f"D={D},offset_range={off},std_one={s},max_one={m}",
                                     lambda e, D=D, off=off, s=s, m=m: ((D,), {"cutoff": sym.integer(e, "cut", lo=0), "offset_range": off, "std_one": s, "max_one": m})))
     out.append(Case("D=2,documented defaults (no option passed)", lambda e: ((2,), {})))
+    # an arbitrary (symbolic) offset range: `std_one` must be refused unless BOTH end points are zero
+    for s in (False, True):
+        for m in (False, True):
+            out.append(Case(f"D=1,offset_range=symbolic,std_one={s},max_one={m}",
+                            lambda e, s=s, m=m: ((1,), {"offset_range": (sym.real(e, "o0"), sym.real(e, "o1")), "std_one": s, "max_one": m})))
     return out
 
 
